@@ -50,6 +50,9 @@ static void build(V &v) {
     { V in; in += static_cast<V &&>(s0); in += static_cast<V &&>(s1); v += static_cast<V &&>(in); }
 #elif VAL == 7    /* {"n": [1, 2, 3], "a": S0, "b": S1}   numbers for conditions inside loops */
     { V in; in += SizeT64{1}; in += SizeT64{2}; in += SizeT64{3}; v["n"] = static_cast<V &&>(in); } v["a"] = static_cast<V &&>(s0); v["b"] = static_cast<V &&>(s1);
+#elif VAL == 8    /* {"g": {"k": [S0]}, "a": [[S1]]}   an object and an array of unprintable items (a loop over each at the same level) */
+    { V in; in += static_cast<V &&>(s0); V o; o["k"] = static_cast<V &&>(in); v["g"] = static_cast<V &&>(o); }
+    { V in; in += static_cast<V &&>(s1); V ar; ar += static_cast<V &&>(in); v["a"] = static_cast<V &&>(ar); }
 #else             /* {"<k>": [S0], "j": [S1]}      object members that are not printable: the loop KEY is printed */
     { V o; o += static_cast<V &&>(s0); v["<k>"] = static_cast<V &&>(o); }
     { V o; o += static_cast<V &&>(s1); v["j"] = static_cast<V &&>(o); }
@@ -71,6 +74,9 @@ static bool leaves_intact(const V &v) {
     { const V *in = v.GetValue(SizeT{0}); if (in) { a = in->GetValue(SizeT{0}); b = in->GetValue(SizeT{1}); } }
 #elif VAL == 7
     a = v.GetValue("a", SizeT{1}); b = v.GetValue("b", SizeT{1});
+#elif VAL == 8
+    { const V *g = v.GetValue("g", SizeT{1}); const V *in = g ? g->GetValue("k", SizeT{1}) : nullptr; if (in) a = in->GetValue(SizeT{0}); }
+    { const V *ar = v.GetValue("a", SizeT{1}); const V *in = ar ? ar->GetValue(SizeT{0}) : nullptr; if (in) b = in->GetValue(SizeT{0}); }
 #else
     { const V *o = v.GetValue("<k>", SizeT{3}); if (o) a = o->GetValue(SizeT{0}); const V *o2 = v.GetValue("j", SizeT{1}); if (o2) b = o2->GetValue(SizeT{0}); }
 #endif
